@@ -164,6 +164,11 @@ func main() {
 				w.Printf("%d %s\n", i, genEntry(r))
 			}
 		}
+		next := n
+		if a.N == 0 {
+			next = genFrames(r, w, next, a.Tier)
+		}
+		_ = next
 		w.Close()
 	case "run":
 		st := vh.NewStats("entries: each uint64 field drawn from {0, boundary table incl. 2^49-1/2^49/2^64-1, random>>k, small, random}, type from int32 incl. negatives, cmd lengths around 0/1/127/128/16383/16384; decode stream: valid encodings mutated by flip/truncate/extend/splice/random. non-trivial = at least one field in fixed 8-byte form AND one in varint form (entries) or a mutated input that differs from a canonical encoding (decode); distinct by full case text")
@@ -213,6 +218,8 @@ func main() {
 				st.Count(fmt.Sprintf("entry.fixed=%d", fixed))
 				st.Count(fmt.Sprintf("entry.cmdlen<=%d", bucket(len(e.Cmd))))
 				st.Case(line[len(id):], fixed > 0 && varint > 0, line)
+			case "HDR", "HDRDEC", "WRITE", "FRAME":
+				runFrame(id, f[1:], line, obs, st)
 			case "DECODE":
 				data := vh.UnHex(f[2])
 				dec := showDec(data)
